@@ -66,7 +66,7 @@ type switchInfo struct {
 	Stmt  *ast.SwitchStmt
 	Cases []string
 	// CaseBodies maps case value -> clause
-	Clauses map[string]*ast.CaseClause
+	Clauses    map[string]*ast.CaseClause
 	HasDefault bool
 }
 
